@@ -39,6 +39,10 @@ class SimFS:
         self.read_block = read_block
         # chunker(task_name, nbytes) -> list of chunk sizes summing to nbytes
         self.chunker: Callable[[Any, int], list[int]] | None = None
+        # short_writer(task, nbytes) -> bytes accepted by ONE write syscall of an unbuffered
+        # file (quota / file-size limit / NFS short write); buffered writers retry short
+        # writes themselves, which is what `chunker` models
+        self.short_writer: Callable[[Any, int], int] | None = None
         self._ino = 0
         self._mod = 0
         self._fd = 100
@@ -142,7 +146,7 @@ class SimFS:
         self._seam("fsync")
 
     # -- open()
-    def open(self, path: str, mode: str) -> "SimFile":
+    def open(self, path: str, mode: str, buffering: int = -1) -> "SimFile":
         self._seam("open", path)
         q = self._resolve(path)
         if "a" in mode or "w" in mode:
@@ -155,6 +159,7 @@ class SimFS:
             raise FileNotFoundError(errno.ENOENT, "No such file or directory", path)
         self._fd += 1
         f = SimFile(self, self.files[q], mode, self._fd, q)
+        f.unbuffered = buffering == 0
         self.fds[self._fd] = f
         return f
 
@@ -176,11 +181,24 @@ class SimFile:
         self._wbuf = bytearray()
         self._rbuf = b""
         self._pos = 0  # file offset of the next read syscall
+        self.unbuffered = False
 
     # writer
     def write(self, b: bytes) -> int:
         if "a" not in self.mode and "w" not in self.mode:
             raise OSError(errno.EBADF, "not writable")
+        if self.unbuffered:
+            # raw FileIO: one write syscall now, which may accept fewer bytes than asked
+            fs = self.fs
+            n = len(b)
+            if fs.short_writer is not None:
+                n = max(0, min(n, fs.short_writer(fs.sim.cur, n)))
+                if n < len(b):
+                    fs.sim.count("fs.short_write")
+            fs._seam("write", "%s#0/1@0" % self.path)
+            self.inode.data += bytes(b[:n])
+            self.inode.mtime = fs._stamp()
+            return n
         self._wbuf += b
         return len(b)
 
